@@ -162,7 +162,7 @@ def gen_dataset(ctx: Ctx, small: list[Any]) -> dict[str, Any]:
     kinds = []
     for t in range(n_tr):
         jid = f"t{t}"
-        kind = r.choice(["tree", "tree", "twin", "same", "dangling", "dangling", "names", "edge"])
+        kind = r.choice(["tree", "tree", "twin", "same", "dangling", "dangling", "names", "edge"] + (["edge"] if buffer else []))
         tr = r.choice(small) if kind in ("tree", "dangling", "names", "edge") or not base else (
             twin(r, r.choice(base)) if kind == "twin" else r.choice(base))
         if kind == "dangling" and r.random() < 0.5:
@@ -178,17 +178,17 @@ def gen_dataset(ctx: Ctx, small: list[Any]) -> dict[str, Any]:
             # in the leading / trailing buffer, or with its only in-window instant EXACTLY on a window edge: the root's
             # start on the upper edge (everything else of the trace later), the root's end on the lower edge
             # (everything else earlier) — the window is [T0 + 1 min, T0 + 9 min], both ends inclusive
-            st = T0 + r.choice([0, 10 * MIN - 100, 9 * MIN, MIN - 50, -1])
+            st = T0 + r.choice([0, 10 * MIN - 100, 9 * MIN, 9 * MIN, MIN - 50, MIN - 50, -1])
         envelope = buffer and kind == "edge" and st == T0 - 1
         if envelope:
             # a trace none of whose instants lies inside the window but whose root covers all of it: the root starts in
             # the leading buffer and ends in the trailing one, its children live in the leading buffer
             st = T0 + 10
-        else:
+        elif not (buffer and kind == "edge"):
             st = T0 + 5 * MIN + r.randrange(0, 10**6)
         ids = [f"{jid}.{i}" for i in range(len(ps))]
         for i, p in enumerate(ps):
-            parent = None if p is None else ids[p]
+            parent = (None if r.random() < 0.7 else "") if p is None else ids[p]   # "": OTLP/JSON's root parentSpanId
             nm = name
             if kind == "dangling" and i == len(ps) - 1:
                 parent = f"lost{t}"
@@ -209,12 +209,19 @@ def gen_dataset(ctx: Ctx, small: list[Any]) -> dict[str, Any]:
         spans.append({"job_name": names[0], "job_id": "hi", "event_type": "A", "event_id": "hi.0",
                       "start_timestamp": T0 + 10 * MIN - 5, "end_timestamp": T0 + 10 * MIN,
                       "application_name": "app", "parent_event_id": None})
-    if r.random() < 0.3 and spans:
-        spans.append(dict(r.choice(spans)))  # an exact duplicate record in the export
+    dup = r.random()
+    if dup < 0.3 and spans:
+        spans.append(dict(r.choice(spans)))  # an exact duplicate record in the export (an exporter's retry)
+        ctx.tick("duplicate_record")
+    elif dup < 0.4 and spans:
+        spans += [dict(s) for s in spans]    # the same export delivered twice
+        ctx.tick("export_twice")
     r.shuffle(spans)
     cut = r.randrange(0, len(spans) + 1) if r.random() < 0.5 else len(spans)
     files = [spans[:cut], spans[cut:]] if 0 < cut < len(spans) else [spans]
-    batch = r.choice([1, 2, 3, 1000])
+    # with repeated records, half the cases use the default-sized batch: both copies then share one commit batch, in
+    # the first run and in every re-ingesting one
+    batch = 1000 if (dup < 0.4 and r.random() < 0.5) else r.choice([1, 2, 3, 1000])
     ctx.tick(f"batch{batch}")
     ctx.tick(f"buffer{buffer}")
     return {"files": files, "batch": batch, "buffer": buffer, "shape": shape, "kinds": kinds}
